@@ -26,7 +26,26 @@ def domain(tier):
         for size in codes.sizes(name, ms, max_n=max_n):
             for dname, kw in codes.deformation_variants(name):
                 out.append((name, size, dname, kw))
-    return out
+        # long thin lattices with a two-digit side, every orientation
+        dim = codes.dimension(name)
+        lo = codes.SUPPORTED[name].get('min_side', 1)
+        thin = []
+        for pos in range(dim):
+            for long_side in (10, 11, 12):
+                for other in (lo, lo + 1, lo + 2):
+                    size = tuple(long_side if j == pos else other for j in range(dim))
+                    if codes.in_family(name, size) and codes.qubit_count(name, size) <= (350 if tier == 'quick' else 700):
+                        thin.append(size)
+                        break
+                else:
+                    continue
+                break
+        for size in dict.fromkeys(thin):
+            vs = codes.deformation_variants(name)
+            for dname, kw in (vs if tier != 'quick' else vs[:1] + vs[-1:]):
+                out.append((name, size, dname, kw))
+    uniq = dict.fromkeys((a, b, c, tuple(sorted(d.items()))) for a, b, c, d in out)
+    return [(a, b, c, dict(d)) for a, b, c, d in uniq]
 
 
 def forms(tier):
@@ -56,6 +75,7 @@ def forms(tier):
 def export(dom, tier='quick'):
     recs = []
     for name, size, dname, kw in dom:
+        kw = dict(kw)
         lab = codes.label(name, size, dname, kw)
         try:
             code = codes.build(name, size, dname, kw)
